@@ -7,6 +7,7 @@ import (
 	"crypto/x509"
 	"encoding/pem"
 	"errors"
+	"fmt"
 	"github.com/rs/zerolog/log"
 	"github.com/theparanoids/ysshra/agent/utils"
 	"io"
@@ -109,6 +110,18 @@ func (_ *server) AddSmartcardKey(readerId string, pin []byte, lifetime time.Dura
 // The request should be forwarded (see: ServeAgent), and be handled by the wrapped SSH agent server.
 func (_ *server) RemoveSmartcardKey(readerId string, pin []byte) error {
 	return errors.New("yubiagent: RemoveSmartcardKey in not implemented in server")
+}
+
+// serveStandardRequest hands one standard agent request to the x/crypto agent server.
+// That server panics on some malformed requests (for example a key constraint that is cut
+// short); such a request must end the connection with an error, not the process.
+func serveStandardRequest(agent YubiAgent, forwarder io.ReadWriter) (err error) {
+	defer func() {
+		if r := recover(); r != nil {
+			err = fmt.Errorf("yubiagent: malformed agent request: %v", r)
+		}
+	}()
+	return sshagent.ServeAgent(agent, forwarder)
 }
 
 // ServeAgent uses an agent (usually a server object) to serve the connection c.
@@ -220,7 +233,7 @@ func ServeAgent(agent YubiAgent, c io.ReadWriter) error {
 			AgentMessageRequestV1Identities, AgentMessageRequestIdentities:
 
 			forwarder := newForwarder(req, c)
-			err = sshagent.ServeAgent(agent, forwarder)
+			err = serveStandardRequest(agent, forwarder)
 			if err != nil && err != io.EOF {
 				return err
 			}
